@@ -1750,6 +1750,11 @@ class Executor:
                     self.prove(s, c, "K4", stmt, "store keeps the assumed type of %s" % key, clause=key)
             box.fields[attr] = v
             return [s]
+        if isinstance(base, Z) and not self.classes_with_attr(attr):
+            # an attribute of a library object (e.g. ruamel's YAML().explicit_end): the store is total and invisible to
+            # the verified code, which never reads such attributes back except through assumed contracts
+            self.assumptions.add("attribute store on a library object (.%s) has no effect visible to the verified code" % attr)
+            return [s]
         raise Unsupported("attribute store on %s" % type(base).__name__, stmt)
 
     def unpack(self, v, n, s, node):
@@ -1819,6 +1824,9 @@ class Executor:
                 return outcomes
             if not s.same_heap(first):
                 return outcomes
+            ev_a, ev_b = s.ghost.get("events", []), first.ghost.get("events", [])
+            if len(ev_a) != len(ev_b) or any(x is not y for x, y in zip(ev_a, ev_b)):
+                return outcomes           # the branches made different contracted calls: their histories stay apart
             if s.pc[:base_len] is None:
                 return outcomes
         sels = []
@@ -1990,7 +1998,33 @@ class Executor:
         raise Unsupported("while loop", stmt)
 
     def st_With(self, stmt, st):
-        raise Unsupported("with", stmt)
+        """`with <expr> [as name]: body` -- the context expression is evaluated (a library call with an external
+        contract, typically open()), the name bound, the body executed.  __enter__ returning the object and __exit__
+        not suppressing exceptions is ASSUMED (true of file objects and tempfile handles, the managers used here);
+        what __exit__ does to the resource (flush, close) is not modelled."""
+        states = [st]
+        for item in stmt.items:
+            nxt = []
+            for s in states:
+                for (s2, v) in self.ev(item.context_expr, s):
+                    if is_exc(v):
+                        nxt.append((s2, ("raise", v)))
+                        continue
+                    if item.optional_vars is not None:
+                        for x in self.assign(item.optional_vars, v, s2, stmt):
+                            nxt.append(x if isinstance(x, tuple) else (x, None))
+                    else:
+                        nxt.append((s2, None))
+            done = [x for x in nxt if x[1] is not None]
+            states = [x[0] for x in nxt if x[1] is None]
+            if done:
+                self._with_early = getattr(self, "_with_early", []) + done
+        self.assumptions.add("with-statement: the context managers used (file objects) return themselves and do not suppress exceptions")
+        out = list(getattr(self, "_with_early", []))
+        self._with_early = []
+        for s in states:
+            out.extend(self.exec_block(stmt.body, s))
+        return out
 
     def st_FunctionDef(self, stmt, st):
         q = self.cur_fi.qualname + "." + stmt.name
